@@ -119,11 +119,14 @@ def step_obligations(pid, tier, seed, check, mutating_only=False):
                     obs.append(dict(id='%s/%s/%s/n%d/%s' % (pid, impl, kind, n, g), mod='h_step', fn='step',
                                     nk=n, args=args, pre=['0 <= op < %d' % nops], params=P, timeout=timeout))
     # grown provenance (history replayed through the API with re-keyed keys) + other node sizes
-    sizes = [(2, 2)] if tier == 'quick' else [(2, 2), (3, 2), (2, 3), (4, 2), (2, 4)]
+    sizes = [(2, 2), (3, 2)] if tier == 'quick' else [(2, 2), (3, 2), (2, 3), (4, 2), (2, 4)]
     for (L, I) in sizes:
         for kind, groups in (('BTree', MAP_GROUPS), ('TreeSet', SET_GROUPS)):
             c, st = cat('OO', 'c', kind, 5 if tier == 'quick' else 6, L, I)
             core = shapes.stratify_large(c, L, I) if (L, I) != (2, 2) or tier != 'quick' else shapes.stratify(c, L, I)
+            if tier == 'quick' and (L, I) != (2, 2):
+                # a few shapes with spare room in their leaves (node size 3)
+                core = [s_ for s_ in shapes.stratify(c, L, I) if s_[0] == 'T'][:(5 if kind == 'BTree' else 3)]
             if tier != 'quick' and (L, I) != (2, 2):
                 core = sorted(c, key=repr)
                 bounds['shapes_%s_%d_%d' % (kind, L, I)] = st
@@ -165,7 +168,7 @@ def step_obligations(pid, tier, seed, check, mutating_only=False):
 THOROUGH_CAP = {}       # property id -> max number of non-core shapes per (kind, node size) in the thorough tier
 
 
-def tree_shapes(tier, seed, kinds=('BTree', 'TreeSet'), quick_extra=(8, 3), maxranks_quick=None, sizes=None, cap=None):
+def tree_shapes(tier, seed, kinds=('BTree', 'TreeSet'), quick_extra=(8, 3), maxranks_quick=None, sizes=None, cap=None, l3=3):
     """-> list of (kind, tag, tpl, hist, L, I), bounds.  cap: the thorough tier takes the stratified core plus a
     VERIF_SEED-rotated sample of `cap` further shapes of each complete catalogue (None = the complete catalogue)."""
     out = []
@@ -184,6 +187,13 @@ def tree_shapes(tier, seed, kinds=('BTree', 'TreeSet'), quick_extra=(8, 3), maxr
             if tier == 'quick' and maxranks_quick and shapes.n_ranks(tpl) > maxranks_quick and tag != 'core':
                 continue
             out.append((kind, tag, tpl, hist, 2, 2))
+        if tier == 'quick' and l3:
+            # leaves with spare room (node size 3): behaviour that needs slack in a leaf is invisible at size 2
+            c32, st32 = cat('OO', 'c', kind, 5, 3, 2)
+            bounds['shapes_%s_3_2_N5' % kind] = st32
+            pick = [s_ for s_ in shapes.stratify(c32, 3, 2) if s_[0] == 'T' and shapes.n_ranks(s_) <= 5]
+            for s_ in pick[:l3]:
+                out.append((kind, 'l3', s_, c32[s_], 3, 2))
     if tier != 'quick':
         for (L, I) in (sizes or [(3, 2), (2, 3)]):
             for kind in kinds:
